@@ -177,18 +177,20 @@ theorem performInclude_first (env : Env) (rec : Rec) (cur : Option Nat) (disc ig
       if outer + INCLUDE_COST + st.frames.length > LIMIT then .error [.invalidOperation]
       else
         match rec cur disc false (outer + INCLUDE_COST) T.ae T.layout
-            { st with blocks := prepare T.blocks, depth := fun _ => 0, loaded := [] } with
+            { st with blocks := prepare T.blocks, depth := fun _ => 0, loaded := [],
+                      frames := st.frames.setTopClosure none } with
         | .error e => .error (.badInclude :: e)
         | .ok (o, st') =>
           .ok (o, { blocks := st.blocks, depth := st.depth, loaded := st.loaded,
-                    frames := st'.frames.take st.frames.length }) := by
+                    frames := (st'.frames.take st.frames.length).setTopClosure st.frames.topClosure }) := by
   induction missing generalizing tried with
   | nil =>
     simp only [List.nil_append, performInclude, hT, hL]
     split
     · rfl
     · cases rec cur disc false (outer + INCLUDE_COST) T.ae T.layout
-        { st with blocks := prepare T.blocks, depth := fun _ => 0, loaded := [] } with
+        { st with blocks := prepare T.blocks, depth := fun _ => 0, loaded := [],
+                  frames := st.frames.setTopClosure none } with
       | error e => rfl
       | ok r => rfl
   | cons m rest ih =>
@@ -239,17 +241,47 @@ def assignsVar (v : Nat) : Item → Bool
   | .setVar w _ | .defMacro w _ => w == v
   | _ => false
 
-theorem store_snoc (base : List Frame) (fr : Frame) (v : Nat) (x : Val) :
-    store (base ++ [fr]) v x = base ++ [(v, x) :: fr] := by
-  simp [store]
+/-- every frame has its closure slot -/
+def Vars.WF (v : Vars) : Prop := v.cls.length = v.stack.length
 
-theorem topFrame_snoc (base : List Frame) (fr : Frame) : topFrame (base ++ [fr]) = fr := by
-  simp [topFrame]
+theorem store_push (base : Vars) (fr : Frame) (v : Nat) (x : Val) :
+    store (base.push [fr]) v x = base.push [(v, x) :: fr] := by
+  cases base
+  simp [store, closureWrite, Vars.push, Vars.topClosure]
+
+theorem topFrame_push (base : Vars) (fr : Frame) : topFrame (base.push [fr]) = fr := by
+  simp [topFrame, Vars.push]
+
+theorem setTopClosure_push (base : Vars) (fr : Frame) :
+    (base.push [fr]).setTopClosure none = base.push [fr] := by
+  cases base
+  simp [Vars.setTopClosure, Vars.push]
+
+theorem topClosure_push (base : Vars) (fr : Frame) : (base.push [fr]).topClosure = none := by
+  simp [Vars.topClosure, Vars.push]
+
+theorem length_push (base : Vars) (fr : Frame) : (base.push [fr]).length = base.length + 1 := by
+  simp [Vars.length, Vars.push]
+
+theorem take_push_self (base : Vars) (fr : Frame) (h : base.WF) :
+    (base.push [fr]).take (base.length + 1) = base.push [fr] := by
+  cases base
+  simp only [Vars.WF] at h
+  simp only [Vars.take, Vars.push, Vars.length, List.map_cons, List.map_nil]
+  congr 1
+  · apply List.take_of_length_le; simp
+  · apply List.take_of_length_le; simp [h]
+
+theorem take_push (base : Vars) (fr : Frame) (h : base.WF) :
+    (base.push [fr]).take base.length = base := by
+  cases base
+  simp only [Vars.WF] at h
+  simp [Vars.take, Vars.push, Vars.length, ← h]
 
 theorem simple_steps (rd : Rd) (rec : Rec) (items : List Item) (h : items.all Item.isAssign = true)
-    (st : St) (base : List Frame) (fr : Frame) (hfr : st.frames = base ++ [fr]) :
+    (st : St) (base : Vars) (fr : Frame) (hfr : st.frames = base.push [fr]) :
     ∃ o, stepItems rd rec none items st =
-      .ok (o, { st with frames := base ++ [assigns items fr] }, none) := by
+      .ok (o, { st with frames := base.push [assigns items fr] }, none) := by
   induction items generalizing st fr with
   | nil => exact ⟨[], by simp [stepItems, assigns, ← hfr]⟩
   | cons it rest ih =>
@@ -260,11 +292,11 @@ theorem simple_steps (rd : Rd) (rec : Rec) (items : List Item) (h : items.all It
       exact ⟨_, by simp only [stepItems, varItem, Res.andThen, ho, assigns]; rfl⟩
     | setVar v s =>
       obtain ⟨o, ho⟩ := ih h.2 { st with frames := store st.frames v (.str s) } ((v, .str s) :: fr)
-        (by simp [hfr, store_snoc])
+        (by simp [hfr, store_push])
       exact ⟨_, by simp only [stepItems, varItem, Res.andThen, ho, assigns]; rfl⟩
     | defMacro v s =>
       obtain ⟨o, ho⟩ := ih h.2 { st with frames := store st.frames v (.mac v s) } ((v, .mac v s) :: fr)
-        (by simp [hfr, store_snoc])
+        (by simp [hfr, store_push])
       exact ⟨_, by simp only [stepItems, varItem, Res.andThen, ho, assigns]; rfl⟩
     | _ => simp [Item.isAssign] at h
 
@@ -289,21 +321,18 @@ theorem lookup_assigns_other (v : Nat) (items : List Item) (fr : Frame)
 theorem include_module (env : Env) (ctx : Cfg) (f : Nat) (cur : Option Nat) (disc : Bool) (outer : Nat)
     (t : Nat) (T : Template) (hT : env[t]? = some T) (hL : T.loadErr = none)
     (hs : T.layout.all Item.isAssign = true)
-    (st : St) (hd : outer + INCLUDE_COST + (st.frames.length + 1) ≤ LIMIT) :
+    (st : St) (hwf : st.frames.WF) (hd : outer + INCLUDE_COST + (st.frames.length + 1) ≤ LIMIT) :
     ∃ o, performInclude env (evalImpl env ctx (f + 1)) cur disc false outer [t] false
-        { st with frames := st.frames ++ [[]] } =
-      .ok (o, { st with frames := st.frames ++ [assigns T.layout []] }) := by
+        { st with frames := st.frames.push [[]] } =
+      .ok (o, { st with frames := st.frames.push [assigns T.layout []] }) := by
   obtain ⟨o, ho⟩ := simple_steps ⟨env, ctx, cur, disc, false, outer + INCLUDE_COST, T.ae⟩ (evalImpl env ctx f)
     T.layout hs
-    { blocks := prepare T.blocks, depth := fun _ => 0, loaded := [], frames := st.frames ++ [[]] }
+    { blocks := prepare T.blocks, depth := fun _ => 0, loaded := [], frames := st.frames.push [[]] }
     st.frames [] rfl
   refine ⟨o, ?_⟩
   have hd' : ¬ (outer + INCLUDE_COST + (st.frames.length + 1) > LIMIT) := by omega
-  simp only [performInclude, hT, hL, evalImpl, ho, List.length_append, List.length_singleton, hd', if_false]
-  congr 2
-  have : (st.frames ++ [assigns T.layout []]).take (st.frames.length + 1) = st.frames ++ [assigns T.layout []] := by
-    apply List.take_of_length_le; simp
-  simp [this]
+  simp only [performInclude, hT, hL, evalImpl, length_push, hd', if_false, setTopClosure_push, ho,
+    take_push_self _ _ hwf, topClosure_push]
 
 theorem andThen_nil (st : St) (k : St → Except Err (List String × St × Option (List Item))) :
     Res.andThen (.ok ([], st)) k = k st := by
@@ -312,31 +341,71 @@ theorem andThen_nil (st : St) (k : St → Except Err (List String × St × Optio
   | error e => rfl
   | ok r => obtain ⟨o, s, a⟩ := r; simp
 
-theorem pushFails_false_of (outer : Nat) (fs : List Frame)
+theorem pushFails_false_of (outer : Nat) (fs : Vars)
     (hd : outer + INCLUDE_COST + (fs.length + 1) ≤ LIMIT) : pushFails outer fs = false := by
   simp only [pushFails, decide_eq_false_iff_not]; omega
 
 theorem importAs_step (env : Env) (ctx : Cfg) (f : Nat) (cur : Option Nat) (d0 e0 : Bool) (outer : Nat)
     (ae : AE) (parent : Option (List Item)) (t v : Nat) (T : Template) (hT : env[t]? = some T)
     (hL : T.loadErr = none) (hs : T.layout.all Item.isAssign = true) (rest : List Item) (st : St)
-    (hd : outer + INCLUDE_COST + (st.frames.length + 1) ≤ LIMIT) :
+    (hwf : st.frames.WF) (hd : outer + INCLUDE_COST + (st.frames.length + 1) ≤ LIMIT) :
     stepItems ⟨env, ctx, cur, d0, e0, outer, ae⟩ (evalImpl env ctx (f + 1)) parent (.importAs t v :: rest) st =
       stepItems ⟨env, ctx, cur, d0, e0, outer, ae⟩ (evalImpl env ctx (f + 1)) parent rest
         { st with frames := store st.frames v (.module (dedupKeys (assigns T.layout []))) } := by
-  obtain ⟨o, ho⟩ := include_module env ctx f cur false outer t T hT hL hs st hd
+  obtain ⟨o, ho⟩ := include_module env ctx f cur false outer t T hT hL hs st hwf hd
   simp only [stepItems, pushFails_false_of outer st.frames hd, Bool.false_eq_true, if_false, ho,
-    topFrame_snoc, take_append_one, andThen_nil]
+    topFrame_push, take_push _ _ hwf, andThen_nil]
 
 theorem fromImport_step (env : Env) (ctx : Cfg) (f : Nat) (cur : Option Nat) (d0 e0 : Bool) (outer : Nat)
     (ae : AE) (parent : Option (List Item)) (t name alias : Nat) (T : Template) (hT : env[t]? = some T)
     (hL : T.loadErr = none) (hs : T.layout.all Item.isAssign = true) (rest : List Item) (st : St)
-    (hd : outer + INCLUDE_COST + (st.frames.length + 1) ≤ LIMIT) :
+    (hwf : st.frames.WF) (hd : outer + INCLUDE_COST + (st.frames.length + 1) ≤ LIMIT) :
     stepItems ⟨env, ctx, cur, d0, e0, outer, ae⟩ (evalImpl env ctx (f + 1)) parent (.fromImport t name alias :: rest) st =
       stepItems ⟨env, ctx, cur, d0, e0, outer, ae⟩ (evalImpl env ctx (f + 1)) parent rest
         { st with frames := store st.frames alias ((lookupVal name (assigns T.layout [])).getD .undef) } := by
-  obtain ⟨o, ho⟩ := include_module env ctx f cur true outer t T hT hL hs st hd
+  obtain ⟨o, ho⟩ := include_module env ctx f cur true outer t T hT hL hs st hwf hd
   simp only [stepItems, pushFails_false_of outer st.frames hd, Bool.false_eq_true, if_false, ho,
-    topFrame_snoc, take_append_one, andThen_nil]
+    topFrame_push, take_push _ _ hwf, andThen_nil]
+
+/-! ### lengths of the frame stack -/
+
+@[simp] theorem store_length (fs : Vars) (v : Nat) (x : Val) : (store fs v x).length = fs.length := by
+  unfold store
+  cases h : fs.stack.reverse with
+  | nil => rfl
+  | cons top below =>
+    have : fs.stack.length = below.length + 1 := by
+      have := congrArg List.length h; simpa using this
+    simp [Vars.length, this]
+
+@[simp] theorem setTopClosure_length (fs : Vars) (c : Option Nat) : (fs.setTopClosure c).length = fs.length := by
+  unfold Vars.setTopClosure
+  cases fs.cls.reverse <;> rfl
+
+@[simp] theorem openClosure_length (fs : Vars) : fs.openClosure.length = fs.length := by
+  unfold Vars.openClosure
+  cases fs.topClosure with
+  | some c => rfl
+  | none => exact setTopClosure_length fs _
+
+@[simp] theorem enclose_length (ctx : Frame) (fs : Vars) (w : Nat) : (enclose ctx fs w).length = fs.length := by
+  unfold enclose
+  simp only []
+  split
+  · exact openClosure_length fs
+  · split <;> exact openClosure_length fs
+
+theorem take_length_le (fs : Vars) (n : Nat) (h : n ≤ fs.length) : (fs.take n).length = n := by
+  simp only [Vars.take, Vars.length, List.length_take] at *
+  omega
+
+@[simp] theorem push_length (fs : Vars) (l : List Frame) : (fs.push l).length = fs.length + l.length := by
+  simp [Vars.push, Vars.length]
+
+@[simp] theorem Vars.length_take (fs : Vars) (n : Nat) : (fs.take n).length = min n fs.length := by
+  simp [Vars.take, Vars.length, List.length_take]
+
+@[simp] theorem macroCtx_length (fs : Vars) (a : Nat) (x : Val) : (fs.macroCtx a x).length = 2 := rfl
 
 /-! ### termination: the recursion limit bounds the nesting, the model's fuel is never the reason -/
 
@@ -347,10 +416,10 @@ def Fine (n : Nat) (r : SRes) : Prop :=
 theorem fine_error {n : Nat} {e : Err} (h : Kind.recursion ∉ e) : Fine n (.error e) :=
   ⟨fun e' he => (by cases he; exact h), fun o fs he => (by cases he)⟩
 
-theorem fine_ok {n : Nat} {o : List String} {fs : List Frame} (h : fs.length = n) : Fine n (.ok (o, fs)) :=
+theorem fine_ok {n : Nat} {o : List String} {fs : Vars} (h : fs.length = n) : Fine n (.ok (o, fs)) :=
   ⟨fun e he => (by cases he), fun o' fs' he => (by cases he; exact h)⟩
 
-theorem fine_cont {n : Nat} (r : SRes) (S : List Frame → SRes) :
+theorem fine_cont {n : Nat} (r : SRes) (S : Vars → SRes) :
     Fine n r → (∀ fs, fs.length = n → Fine n (S fs)) →
     Fine n (match r with
       | .error e => .error e
@@ -379,26 +448,19 @@ theorem fine_take {n : Nat} (r : SRes) :
   | error e => exact fine_error (hr.1 e rfl)
   | ok p =>
     obtain ⟨o, fs'⟩ := p
-    exact fine_ok (by simp [hr.2 o fs' rfl])
+    exact fine_ok (by
+      have := hr.2 o fs' rfl
+      rw [Vars.length_take, this]; omega)
 
-theorem store_length (fs : List Frame) (v : Nat) (x : Val) : (store fs v x).length = fs.length := by
-  unfold store
-  cases h : fs.reverse with
-  | nil => simp at h; simp [h]
-  | cons top below =>
-    have : fs.length = below.length + 1 := by
-      have := congrArg List.length h; simpa using this
-    simp [this]
-
-theorem emitUndef_fine (cfg : Cfg) (q : Bool) (ae : AE) (fs : List Frame) :
+theorem emitUndef_fine (cfg : Cfg) (q : Bool) (ae : AE) (fs : Vars) :
     Fine fs.length (emitUndef cfg q ae fs) := by
   unfold emitUndef
   split
   · exact fine_error (by simp)
   · split <;> exact fine_ok rfl
 
-theorem varItem_fine (ctx : Cfg) (q : Bool) (ae : AE) (it : Item) (fs : List Frame)
-    (r : Except Err (List String × List Frame))
+theorem varItem_fine (ctx : Cfg) (q : Bool) (ae : AE) (it : Item) (fs : Vars)
+    (r : Except Err (List String × Vars))
     (h : varItem ctx q ae it fs = some r) : Fine fs.length r := by
   unfold varItem at h
   cases it <;> simp only [] at h <;> try (cases h)
@@ -412,8 +474,10 @@ theorem varItem_fine (ctx : Cfg) (q : Bool) (ae : AE) (it : Item) (fs : List Fra
       cases h
       first
         | exact fine_ok rfl
+        | exact fine_ok (by rw [store_length, enclose_length])
         | exact fine_error (by simp)
         | exact emitUndef_fine _ _ _ _
+        | exact fine_error ((emitUndef_fine _ _ _ _).1 _ (by assumption))
 
 /-- the callbacks one level down are `Fine` wherever the guards of `specItems` let them be called
     from a statement list running at `outer` with `n` frames -/
@@ -422,18 +486,18 @@ structure CbFine (cbs : SpecCbs) (outer n : Nat) : Prop where
     Fine (n + 1) (cbs.body D m k disc outer ae fs1)
   list : ∀ D cur disc ext ae items fs1, fs1.length = n + 1 → outer + (n + 1) ≤ LIMIT →
     Fine (n + 1) (cbs.list D cur disc ext outer ae items fs1)
-  mac : ∀ D ae items fs1, fs1.length = 2 → outer + n + MACRO_COST + 2 ≤ LIMIT →
+  mac : ∀ D ae items (fs1 : Vars), fs1.length = 2 → outer + n + MACRO_COST + 2 ≤ LIMIT →
     Fine 2 (cbs.list D none false false (outer + n + MACRO_COST) ae items fs1)
   chain : ∀ t disc ae layout fs1, (fs1.length = n ∨ fs1.length = n + 1) →
     outer + INCLUDE_COST + fs1.length ≤ LIMIT →
     Fine fs1.length (cbs.chain [t] disc (outer + INCLUDE_COST) ae layout fs1)
 
-theorem pushFails_false_iff (outer : Nat) (fs : List Frame) :
+theorem pushFails_false_iff (outer : Nat) (fs : Vars) :
     pushFails outer fs = false ↔ outer + (fs.length + 1) ≤ LIMIT := by
   simp only [pushFails, decide_eq_false_iff_not]; omega
 
 theorem specBlock_fine {cbs : SpecCbs} {outer n : Nat} (h : CbFine cbs outer n)
-    (D : Nat → List (List Item)) (disc : Bool) (ae : AE) (m : Nat) (fs : List Frame) (hfs : fs.length = n) :
+    (D : Nat → List (List Item)) (disc : Bool) (ae : AE) (m : Nat) (fs : Vars) (hfs : fs.length = n) :
     Fine n (specBlock cbs D disc outer ae m fs) := by
   unfold specBlock
   cases D m with
@@ -448,10 +512,10 @@ theorem specBlock_fine {cbs : SpecCbs} {outer n : Nat} (h : CbFine cbs outer n)
         simp only [Bool.false_eq_true, if_false]
         have hd := (pushFails_false_iff outer fs).1 hpf
         rw [hfs] at hd ⊢
-        exact fine_take _ (h.body D m 0 disc ae (fs ++ [[]]) (by simp [hfs]) hd)
+        exact fine_take _ (h.body D m 0 disc ae (fs.push [[]]) (by simp [hfs]) hd)
 
 theorem specSuper_fine {cbs : SpecCbs} {outer n : Nat} (h : CbFine cbs outer n)
-    (D : Nat → List (List Item)) (cur : Option (Nat × Nat)) (disc : Bool) (ae : AE) (fs : List Frame)
+    (D : Nat → List (List Item)) (cur : Option (Nat × Nat)) (disc : Bool) (ae : AE) (fs : Vars)
     (hfs : fs.length = n) : Fine n (specSuper cbs D cur disc outer ae fs) := by
   unfold specSuper
   cases cur with
@@ -466,14 +530,14 @@ theorem specSuper_fine {cbs : SpecCbs} {outer n : Nat} (h : CbFine cbs outer n)
         simp only [Bool.false_eq_true, if_false]
         have hd := (pushFails_false_iff outer fs).1 hpf
         rw [hfs] at hd ⊢
-        have hb := h.body D b (k + 1) disc ae (fs ++ [[]]) (by simp [hfs]) hd
-        cases hr : cbs.body D b (k + 1) disc outer ae (fs ++ [[]]) with
+        have hb := h.body D b (k + 1) disc ae (fs.push [[]]) (by simp [hfs]) hd
+        cases hr : cbs.body D b (k + 1) disc outer ae (fs.push [[]]) with
         | error e => exact fine_error (by simp [hb.1 e hr])
         | ok q => obtain ⟨o, fs'⟩ := q; exact fine_ok (by simp [hb.2 o fs' hr])
     · exact fine_error (by simp)
 
 theorem specInclude_fine {cbs : SpecCbs} {outer n : Nat} (h : CbFine cbs outer n) (env : Env)
-    (disc ign : Bool) (names : List Nat) (tried : Bool) (fs : List Frame)
+    (disc ign : Bool) (names : List Nat) (tried : Bool) (fs : Vars)
     (hfs : fs.length = n ∨ fs.length = n + 1) :
     Fine fs.length (specInclude env cbs disc ign outer names tried fs) := by
   induction names generalizing tried with
@@ -495,13 +559,16 @@ theorem specInclude_fine {cbs : SpecCbs} {outer n : Nat} (h : CbFine cbs outer n
       split
       · exact fine_error (by simp)
       · rename_i hd
-        have hc := h.chain t disc T.ae T.layout fs hfs (by omega)
-        cases hr : cbs.chain [t] disc (outer + INCLUDE_COST) T.ae T.layout fs with
+        have hc := h.chain t disc T.ae T.layout (fs.setTopClosure none) (by simpa using hfs) (by simpa using hd)
+        cases hr : cbs.chain [t] disc (outer + INCLUDE_COST) T.ae T.layout (fs.setTopClosure none) with
         | error e => exact fine_error (by simp [hc.1 e hr])
-        | ok q => obtain ⟨o, fs'⟩ := q; exact fine_ok (by simp [hc.2 o fs' hr])
+        | ok q =>
+          obtain ⟨o, fs'⟩ := q
+          have := hc.2 o fs' hr
+          exact fine_ok (by simp at this; simp [this])
 
-theorem specLoop_fine (run : List Frame → SRes) (v : Nat) (vals : List String) (fl : Nat)
-    (hrun : ∀ fs, fs.length = fl + 1 → Fine (fl + 1) (run fs)) (fs : List Frame)
+theorem specLoop_fine (run : Vars → SRes) (v : Nat) (vals : List String) (fl : Nat)
+    (hrun : ∀ fs, fs.length = fl + 1 → Fine (fl + 1) (run fs)) (fs : Vars)
     (hfs : fs.length = fl + 1) : Fine (fl + 1) (specLoop run v vals fl fs) := by
   unfold specLoop
   have key : ∀ (acc : SRes), Fine (fl + 1) acc →
@@ -509,7 +576,7 @@ theorem specLoop_fine (run : List Frame → SRes) (v : Nat) (vals : List String)
         match acc with
         | .error e => .error e
         | .ok (o, s) =>
-          match run (s.take fl ++ [[(v, .str val)]]) with
+          match run ((s.take fl).push [[(v, Val.str val)]]) with
           | .error e => .error e
           | .ok (o', s') => .ok (o ++ o', s')) acc) := by
     induction vals with
@@ -523,9 +590,9 @@ theorem specLoop_fine (run : List Frame → SRes) (v : Nat) (vals : List String)
       | ok p =>
         obtain ⟨o, s⟩ := p
         have hs := hacc.2 o s rfl
-        have hr := hrun (s.take fl ++ [[(v, .str val)]]) (by simp [hs])
+        have hr := hrun ((s.take fl).push [[(v, Val.str val)]]) (by simp [hs])
         simp only []
-        cases hrr : run (s.take fl ++ [[(v, .str val)]]) with
+        cases hrr : run ((s.take fl).push [[(v, Val.str val)]]) with
         | error e => exact fine_error (hr.1 e hrr)
         | ok q => obtain ⟨o', s'⟩ := q; exact fine_ok (hr.2 o' s' hrr)
   exact key _ (fine_ok hfs)
@@ -533,8 +600,8 @@ theorem specLoop_fine (run : List Frame → SRes) (v : Nat) (vals : List String)
 theorem specItems_fine (env : Env) (ctx : Cfg) {cbs : SpecCbs} {outer n : Nat} (h : CbFine cbs outer n)
     (D : Nat → List (List Item)) (cur : Option (Nat × Nat)) (disc ext : Bool) (ae : AE) (items : List Item)
     (hsame : ∀ m body, Item.autoesc m body ∈ items → body.any isAutoesc = false →
-      ∀ fs1 : List Frame, fs1.length = n → Fine n (cbs.list D cur disc ext outer m body fs1))
-    (fs : List Frame) (hfs : fs.length = n) :
+      ∀ fs1 : Vars, fs1.length = n → Fine n (cbs.list D cur disc ext outer m body fs1))
+    (fs : Vars) (hfs : fs.length = n) :
     Fine n (specItems env ctx cbs D cur disc ext outer ae items fs) := by
   induction items generalizing fs with
   | nil => exact fine_ok hfs
@@ -591,8 +658,8 @@ theorem specItems_fine (env : Env) (ctx : Cfg) {cbs : SpecCbs} {outer n : Nat} (
       | true => exact fine_error (by simp)
       | false =>
         simp only [Bool.false_eq_true, if_false]
-        have hi := specInclude_fine h env false false [t] false (fs ++ [[]]) (Or.inr (by simp [hfs]))
-        cases hr : specInclude env cbs false false outer [t] false (fs ++ [[]]) with
+        have hi := specInclude_fine h env false false [t] false (fs.push [[]]) (Or.inr (by simp [hfs]))
+        cases hr : specInclude env cbs false false outer [t] false (fs.push [[]]) with
         | error e => exact fine_error (hi.1 e hr)
         | ok q =>
           obtain ⟨o, fs'⟩ := q
@@ -604,8 +671,8 @@ theorem specItems_fine (env : Env) (ctx : Cfg) {cbs : SpecCbs} {outer n : Nat} (
       | true => exact fine_error (by simp)
       | false =>
         simp only [Bool.false_eq_true, if_false]
-        have hi := specInclude_fine h env true false [t] false (fs ++ [[]]) (Or.inr (by simp [hfs]))
-        cases hr : specInclude env cbs true false outer [t] false (fs ++ [[]]) with
+        have hi := specInclude_fine h env true false [t] false (fs.push [[]]) (Or.inr (by simp [hfs]))
+        cases hr : specInclude env cbs true false outer [t] false (fs.push [[]]) with
         | error e => exact fine_error (hi.1 e hr)
         | ok q =>
           obtain ⟨o, fs'⟩ := q
@@ -622,9 +689,9 @@ theorem specItems_fine (env : Env) (ctx : Cfg) {cbs : SpecCbs} {outer n : Nat} (
           have hd := (pushFails_false_iff outer fs).1 hpf
           rw [hfs] at hd
           have hl := specLoop_fine (cbs.list D cur disc ext outer ae body) v vals n
-            (fun fs1 h1 => h.list D cur disc ext ae body fs1 h1 hd) (fs ++ [[]]) (by simp [hfs])
+            (fun fs1 h1 => h.list D cur disc ext ae body fs1 h1 hd) (fs.push [[]]) (by simp [hfs])
           rw [hfs]
-          cases hr : specLoop (cbs.list D cur disc ext outer ae body) v vals n (fs ++ [[]]) with
+          cases hr : specLoop (cbs.list D cur disc ext outer ae body) v vals n (fs.push [[]]) with
           | error e => exact fine_error (hl.1 e hr)
           | ok q =>
             obtain ⟨o, s⟩ := q
@@ -637,9 +704,9 @@ theorem specItems_fine (env : Env) (ctx : Cfg) {cbs : SpecCbs} {outer n : Nat} (
         · exact fine_error (by simp)
         · rename_i hd
           rw [store_length, hfs] at hd
-          have hm := h.mac D ae body [[], [(arg, Val.str val)]] rfl (by omega)
+          have hm := h.mac D ae body ((store fs m Val.opaque).macroCtx arg (Val.str val)) rfl (by omega)
           rw [store_length, hfs]
-          cases hr : cbs.list D none false false (outer + n + MACRO_COST) ae body [[], [(arg, Val.str val)]] with
+          cases hr : cbs.list D none false false (outer + n + MACRO_COST) ae body ((store fs m Val.opaque).macroCtx arg (Val.str val)) with
           | error e => exact fine_error (hm.1 e hr)
           | ok q =>
             obtain ⟨o, s⟩ := q
@@ -675,6 +742,16 @@ theorem specItems_fine (env : Env) (ctx : Cfg) {cbs : SpecCbs} {outer n : Nat} (
         | error e => exact fine_error (hf.1 e rfl)
         | ok q => obtain ⟨o, fs'⟩ := q; exact hcont _ hf
     | setVar v s =>
+      simp only [specItems]
+      cases hv : varItem ctx disc ae _ fs with
+      | none => exact fine_error (by simp)
+      | some r =>
+        have hf := varItem_fine ctx disc ae _ fs r hv
+        rw [hfs] at hf
+        cases r with
+        | error e => exact fine_error (hf.1 e rfl)
+        | ok q => obtain ⟨o, fs'⟩ := q; exact hcont _ hf
+    | defMacroV m' w' =>
       simp only [specItems]
       cases hv : varItem ctx disc ae _ fs with
       | none => exact fine_error (by simp)
@@ -754,17 +831,17 @@ theorem W_pos (E d : Nat) (h : d ≤ LIMIT) : 1 ≤ W E d := by
 /-- with `f` levels of fuel, nothing that starts at a depth the fuel covers runs out of fuel,
     and every successful run returns as many frames as it was given -/
 structure Term (env : Env) (ctx : Cfg) (f : Nat) : Prop where
-  list : ∀ D cur disc ext outer ae items (fs : List Frame), outer + fs.length ≤ LIMIT →
+  list : ∀ D cur disc ext outer ae items (fs : Vars), outer + fs.length ≤ LIMIT →
     W env.length (outer + fs.length) ≤ f →
     Fine fs.length ((specAll env ctx f).list D cur disc ext outer ae items fs)
   /-- a list without `autoescape` blocks directly in it (the body of such a block) -/
-  flat : ∀ D cur disc ext outer ae (items : List Item) (fs : List Frame), items.any isAutoesc = false →
+  flat : ∀ D cur disc ext outer ae (items : List Item) (fs : Vars), items.any isAutoesc = false →
     outer + fs.length ≤ LIMIT → W env.length (outer + fs.length + 1) + 1 ≤ f →
     Fine fs.length ((specAll env ctx f).list D cur disc ext outer ae items fs)
-  body : ∀ D n k disc outer ae (fs : List Frame), outer + fs.length ≤ LIMIT →
+  body : ∀ D n k disc outer ae (fs : Vars), outer + fs.length ≤ LIMIT →
     W env.length (outer + fs.length) ≤ f →
     Fine fs.length ((specAll env ctx f).body D n k disc outer ae fs)
-  chain : ∀ (chain : List Nat) disc outer ae layout (fs : List Frame), chain ≠ [] → chain.tail.Nodup →
+  chain : ∀ (chain : List Nat) disc outer ae layout (fs : Vars), chain ≠ [] → chain.tail.Nodup →
     (∀ x ∈ chain.tail, x < env.length) → outer + fs.length ≤ LIMIT →
     W env.length (outer + fs.length + 1) + (env.length - chain.tail.length) + 2 ≤ f →
     Fine fs.length ((specAll env ctx f).chain chain disc outer ae layout fs)
@@ -804,10 +881,10 @@ theorem term_zero (env : Env) (ctx : Cfg) : Term env ctx 0 := by
     omega
 
 theorem term_succ (env : Env) (ctx : Cfg) (f : Nat) (ht : Term env ctx f) : Term env ctx (f + 1) := by
-  have hsame : ∀ (outer : Nat) (fs : List Frame), outer + fs.length ≤ LIMIT →
+  have hsame : ∀ (outer : Nat) (fs : Vars), outer + fs.length ≤ LIMIT →
       W env.length (outer + fs.length + 1) + 1 ≤ f →
       ∀ D cur disc ext (items : List Item) m body, Item.autoesc m body ∈ items → body.any isAutoesc = false →
-      ∀ fs1 : List Frame, fs1.length = fs.length →
+      ∀ fs1 : Vars, fs1.length = fs.length →
         Fine fs.length ((specAll env ctx f).list D cur disc ext outer m body fs1) := by
     intro outer fs hd hw D cur disc ext items m body _ hb fs1 h1
     have := ht.flat D cur disc ext outer m body fs1 hb (by omega) (by rw [h1]; exact hw)
@@ -832,11 +909,11 @@ theorem term_succ (env : Env) (ctx : Cfg) (f : Nat) (ht : Term env ctx f) : Term
       exact specItems_fine env ctx (cbfine_of_term ht outer fs.length (by omega)) D _ disc false ae b
         (hsame outer fs hd (by omega) D _ disc false b) fs rfl
   · intro chain disc outer ae layout fs hne hnd hlt hd hw
-    have hcb : ∀ fs' : List Frame, fs'.length = fs.length → CbFine (specAll env ctx f) outer fs'.length := by
+    have hcb : ∀ fs' : Vars, fs'.length = fs.length → CbFine (specAll env ctx f) outer fs'.length := by
       intro fs' h'; rw [h']; exact cbfine_of_term ht outer fs.length (by omega)
-    have hsm : ∀ (fs' : List Frame), fs'.length = fs.length → ∀ D cur disc ext (items : List Item) m body,
+    have hsm : ∀ (fs' : Vars), fs'.length = fs.length → ∀ D cur disc ext (items : List Item) m body,
         Item.autoesc m body ∈ items → body.any isAutoesc = false →
-        ∀ fs1 : List Frame, fs1.length = fs'.length →
+        ∀ fs1 : Vars, fs1.length = fs'.length →
           Fine fs'.length ((specAll env ctx f).list D cur disc ext outer m body fs1) := by
       intro fs' h'
       exact hsame outer fs' (by omega) (by rw [h']; omega)
@@ -936,7 +1013,7 @@ theorem extendsAfterText_split (layout : List Item) (h : extendsAfterText layout
 
 theorem specItems_texts (env : Env) (ctx : Cfg) (cbs : SpecCbs) (D : Nat → List (List Item))
     (cur : Option (Nat × Nat)) (disc ext : Bool) (outer : Nat) (ae : AE) (pre more : List Item)
-    (h : pre.all Item.isText = true) (fs : List Frame) :
+    (h : pre.all Item.isText = true) (fs : Vars) :
     ∃ o, specItems env ctx cbs D cur disc ext outer ae (pre ++ more) fs =
       match specItems env ctx cbs D cur disc ext outer ae more fs with
       | .error e => .error e
@@ -961,7 +1038,7 @@ theorem specItems_texts (env : Env) (ctx : Cfg) (cbs : SpecCbs) (D : Nat → Lis
     | _ => simp [Item.isText] at h
 
 theorem specItems_post (env : Env) (ctx : Cfg) (cbs : SpecCbs) (D : Nat → List (List Item))
-    (outer : Nat) (ae : AE) (post : List Item) (h : post.all Item.isPost = true) (fs : List Frame) :
+    (outer : Nat) (ae : AE) (post : List Item) (h : post.all Item.isPost = true) (fs : Vars) :
     specItems env ctx cbs D none true true outer ae post fs =
       if hasExecExtends post then .error [.invalidOperation] else .ok ([], fs) := by
   induction post with
@@ -1113,7 +1190,7 @@ theorem include_items_err (env : Env) (ctx : Cfg) (cbs : SpecCbs)
     (D : Nat → List (List Item)) (cur : Option (Nat × Nat)) (disc ext : Bool) (outer : Nat) (ae : AE)
     (pre : List Item) (t : Nat) (ign : Bool) (more : List Item)
     (hpre : pre.all Item.isText = true) (ht : t < env.length) (hload : ∀ T ∈ env, T.loadErr = none)
-    (fs : List Frame) :
+    (fs : Vars) :
     ∃ e, specItems env ctx cbs D cur disc ext outer ae (pre ++ .incl [t] ign :: more) fs = .error e ∧ IncErr e := by
   obtain ⟨o, ho⟩ := specItems_texts env ctx cbs D cur disc ext outer ae pre (.incl [t] ign :: more) hpre fs
   rw [ho]
@@ -1121,7 +1198,7 @@ theorem include_items_err (env : Env) (ctx : Cfg) (cbs : SpecCbs)
   simp only [specItems, specInclude, hT, hload _ (List.getElem_mem ht)]
   by_cases hd : outer + INCLUDE_COST + fs.length > LIMIT
   · exact ⟨[.invalidOperation], by simp [hd], 0, .invalidOperation, rfl, Or.inl rfl⟩
-  · obtain ⟨e, he, j, k, hjk, hk⟩ := hcb t ht _ hT disc (outer + INCLUDE_COST) env[t].ae fs
+  · obtain ⟨e, he, j, k, hjk, hk⟩ := hcb t ht _ hT disc (outer + INCLUDE_COST) env[t].ae (fs.setTopClosure none)
     refine ⟨.badInclude :: e, by simp [hd, he], j + 1, k, ?_, hk⟩
     rw [hjk]; rfl
 
@@ -1152,9 +1229,9 @@ theorem include_cycle_spec (env : Env) (ctx : Cfg)
 
 theorem spec_simple_steps (env : Env) (ctx : Cfg) (cbs : SpecCbs) (D : Nat → List (List Item))
     (cur : Option (Nat × Nat)) (disc ext : Bool) (outer : Nat) (ae : AE) (items : List Item)
-    (h : items.all Item.isAssign = true) (base : List Frame) (fr : Frame) :
-    ∃ o, specItems env ctx cbs D cur disc ext outer ae items (base ++ [fr]) =
-      .ok (o, base ++ [assigns items fr]) := by
+    (h : items.all Item.isAssign = true) (base : Vars) (fr : Frame) :
+    ∃ o, specItems env ctx cbs D cur disc ext outer ae items (base.push [fr]) =
+      .ok (o, base.push [assigns items fr]) := by
   induction items generalizing fr with
   | nil => exact ⟨[], rfl⟩
   | cons it rest ih =>
@@ -1165,10 +1242,10 @@ theorem spec_simple_steps (env : Env) (ctx : Cfg) (cbs : SpecCbs) (D : Nat → L
       exact ⟨_, by simp only [specItems, varItem, ho, assigns]; rfl⟩
     | setVar v s =>
       obtain ⟨o, ho⟩ := ih h.2 ((v, .str s) :: fr)
-      exact ⟨_, by simp only [specItems, varItem, store_snoc, ho, assigns]; rfl⟩
+      exact ⟨_, by simp only [specItems, varItem, store_push, ho, assigns]; rfl⟩
     | defMacro v s =>
       obtain ⟨o, ho⟩ := ih h.2 ((v, .mac v s) :: fr)
-      exact ⟨_, by simp only [specItems, varItem, store_snoc, ho, assigns]; rfl⟩
+      exact ⟨_, by simp only [specItems, varItem, store_push, ho, assigns]; rfl⟩
     | _ => simp [Item.isAssign] at h
 
 theorem splitExtends_assign_none (items : List Item) (h : items.all Item.isAssign = true) :
@@ -1195,11 +1272,11 @@ theorem spec_include_extending (env : Env) (ctx : Cfg) (f : Nat) (disc : Bool) (
     (hT : env[t]? = some T) (hP : env[p]? = some P) (hLT : T.loadErr = none) (hLP : P.loadErr = none)
     (hl : T.layout = pre ++ .extends true p :: post)
     (hpre : pre.all Item.isAssign = true) (hpost : post.all Item.isAssign = true)
-    (hpl : P.layout.all Item.isAssign = true) (fs : List Frame)
+    (hpl : P.layout.all Item.isAssign = true) (fs : Vars) (hwf : fs.WF)
     (hd : outer + INCLUDE_COST + (fs.length + 1) ≤ LIMIT) :
-    ∃ o, specInclude env (specAll env ctx (f + 2)) disc false outer [t] false (fs ++ [[]]) =
-      .ok (o, fs ++ [assigns P.layout (assigns post (assigns pre []))]) := by
-  have hd' : ¬ (outer + INCLUDE_COST + (fs ++ [[]]).length > LIMIT) := by simp; omega
+    ∃ o, specInclude env (specAll env ctx (f + 2)) disc false outer [t] false (fs.push [[]]) =
+      .ok (o, fs.push [assigns P.layout (assigns post (assigns pre []))]) := by
+  have hd' : ¬ (outer + INCLUDE_COST + (fs.push [[]]).length > LIMIT) := by simp; omega
   obtain ⟨o1, h1⟩ := spec_simple_steps env ctx (specAll env ctx f.succ) (defs env [t]) none disc false
     (outer + INCLUDE_COST) T.ae pre hpre fs []
   obtain ⟨o2, h2⟩ := spec_simple_steps env ctx (specAll env ctx f.succ) (defs env ([t] ++ [p])) none true true
@@ -1207,22 +1284,20 @@ theorem spec_include_extending (env : Env) (ctx : Cfg) (f : Nat) (disc : Bool) (
   obtain ⟨o3, h3⟩ := spec_simple_steps env ctx (specAll env ctx f) (defs env ([t] ++ [p])) none disc false
     (outer + INCLUDE_COST) T.ae P.layout hpl fs (assigns post (assigns pre []))
   refine ⟨o1 ++ o2 ++ o3, ?_⟩
-  simp only [specInclude, hT, hLT, hd', if_false]
-  have hchain : (specAll env ctx (f + 2)).chain [t] disc (outer + INCLUDE_COST) T.ae T.layout (fs ++ [[]]) =
-      .ok (o1 ++ o2 ++ o3, fs ++ [assigns P.layout (assigns post (assigns pre []))]) := by
-    have e1 : (specAll env ctx (f + 2)).chain [t] disc (outer + INCLUDE_COST) T.ae T.layout (fs ++ [[]]) =
-        specChain env ctx (specAll env ctx (f + 1)) [t] disc (outer + INCLUDE_COST) T.ae T.layout (fs ++ [[]]) := rfl
+  simp only [specInclude, hT, hLT, hd', if_false, setTopClosure_push, topClosure_push]
+  have hchain : (specAll env ctx (f + 2)).chain [t] disc (outer + INCLUDE_COST) T.ae T.layout (fs.push [[]]) =
+      .ok (o1 ++ o2 ++ o3, fs.push [assigns P.layout (assigns post (assigns pre []))]) := by
+    have e1 : (specAll env ctx (f + 2)).chain [t] disc (outer + INCLUDE_COST) T.ae T.layout (fs.push [[]]) =
+        specChain env ctx (specAll env ctx (f + 1)) [t] disc (outer + INCLUDE_COST) T.ae T.layout (fs.push [[]]) := rfl
     have e2 : (specAll env ctx (f + 1)).chain ([t] ++ [p]) disc (outer + INCLUDE_COST) T.ae P.layout
-          (fs ++ [assigns post (assigns pre [])]) =
+          (fs.push [assigns post (assigns pre [])]) =
         specChain env ctx (specAll env ctx f) ([t] ++ [p]) disc (outer + INCLUDE_COST) T.ae P.layout
-          (fs ++ [assigns post (assigns pre [])]) := rfl
+          (fs.push [assigns post (assigns pre [])]) := rfl
     rw [e1]
     simp only [specChain, hl, splitExtends_assign_some pre post p hpre, h1, List.tail_cons,
       List.not_mem_nil, if_false, hP, hLP, h2, e2, splitExtends_assign_none P.layout hpl, h3]
   rw [hchain]
-  simp only [List.length_append, List.length_singleton]
-  congr 2
-  apply List.take_of_length_le; simp
+  simp only [length_push, take_push_self _ _ hwf, setTopClosure_push]
 
 theorem importAs_extending_step (env : Env) (ctx : Cfg) (henv : EnvOK env) (f : Nat)
     (cur : Option Nat) (d0 e0 : Bool) (outer : Nat) (ae : AE) (parent : Option (List Item))
@@ -1230,23 +1305,23 @@ theorem importAs_extending_step (env : Env) (ctx : Cfg) (henv : EnvOK env) (f : 
     (hT : env[t]? = some T) (hP : env[p]? = some P) (hLT : T.loadErr = none) (hLP : P.loadErr = none)
     (hl : T.layout = pre ++ .extends true p :: post)
     (hpre : pre.all Item.isAssign = true) (hpost : post.all Item.isAssign = true)
-    (hpl : P.layout.all Item.isAssign = true) (rest : List Item) (st : St)
+    (hpl : P.layout.all Item.isAssign = true) (rest : List Item) (st : St) (hwf : st.frames.WF)
     (hd : outer + INCLUDE_COST + (st.frames.length + 1) ≤ LIMIT) :
     stepItems ⟨env, ctx, cur, d0, e0, outer, ae⟩ (evalImpl env ctx (f + 2)) parent (.importAs t v :: rest) st =
       stepItems ⟨env, ctx, cur, d0, e0, outer, ae⟩ (evalImpl env ctx (f + 2)) parent rest
         { st with frames := (store st.frames v
             (Val.module (dedupKeys (assigns P.layout (assigns post (assigns pre [])))))) } := by
   obtain ⟨o, ho⟩ := spec_include_extending env ctx f false outer t p T P pre post hT hP hLT hLP hl hpre hpost hpl
-    st.frames hd
+    st.frames hwf hd
   simp only [stepItems, pushFails_false_of outer st.frames hd, Bool.false_eq_true, if_false]
   rw [include_sim (hyp_all env ctx henv (f + 2)) henv cur false false outer [t] false
-    { st with frames := st.frames ++ [[]] }]
-  simp only [ho, liftS, topFrame_snoc, take_append_one, andThen_nil]
+    { st with frames := st.frames.push [[]] }]
+  simp only [ho, liftS, topFrame_push, take_push _ _ hwf, andThen_nil]
 
 /-! ### the state a render leaves behind (`State::render_block`) -/
 
 theorem ChainSt.setFrames {env : Env} {chain : List Nat} {st : St} (h : ChainSt env chain st)
-    (fs : List Frame) : ChainSt env chain { st with frames := fs } :=
+    (fs : Vars) : ChainSt env chain { st with frames := fs } :=
   ⟨h.blocks, h.depth, h.loaded⟩
 
 /-- the state a successful render leaves behind: the block stacks hold the definitions of the
@@ -1346,5 +1421,776 @@ theorem final_chainSt (env : Env) (ctx : Cfg) (henv : EnvOK env) :
                 obtain ⟨more, hm⟩ := ih (chain ++ [t]) T.layout _ rcur disc outer ae (hst1 fs2) (henv.layout hT)
                   (by simp) o3 st3 hE
                 exact ⟨t :: more, by simpa using hm⟩
+
+/-! ### closures are kept apart across an include -/
+
+/-- the frame on top writes through to no closure older than `H` -/
+def QT (H : Nat) (a : Vars) : Prop := ∀ c, a.topClosure = some c → H ≤ c
+
+/-- what an evaluation may do to the variable state when closures `< H` are foreign: same frame
+    count, the closure slots below the top frame untouched, the old closures untouched -/
+structure Rel (H : Nat) (a b : Vars) : Prop where
+  len : b.stack.length = a.stack.length
+  clen : b.cls.length = a.cls.length
+  low : ∀ i, i + 1 < a.cls.length → b.cls[i]? = a.cls[i]?
+  old : ∀ i, i < H → b.heap[i]? = a.heap[i]?
+  grow : a.heap.length ≤ b.heap.length
+
+structure Pre (H : Nat) (a : Vars) : Prop where
+  qt : QT H a
+  hh : H ≤ a.heap.length
+  wf : a.cls.length = a.stack.length
+
+theorem Rel.refl (H : Nat) (a : Vars) : Rel H a a :=
+  ⟨rfl, rfl, fun _ _ => rfl, fun _ _ => rfl, Nat.le_refl _⟩
+
+theorem Rel.trans {H : Nat} {a b c : Vars} (h1 : Rel H a b) (h2 : Rel H b c) : Rel H a c :=
+  ⟨h2.len.trans h1.len, h2.clen.trans h1.clen,
+   fun i hi => (h2.low i (by rw [h1.clen]; exact hi)).trans (h1.low i hi),
+   fun i hi => (h2.old i hi).trans (h1.old i hi), Nat.le_trans h1.grow h2.grow⟩
+
+theorem topClosure_eq (a : Vars) : a.topClosure = (a.cls[a.cls.length - 1]?).getD none := by
+  unfold Vars.topClosure
+  cases h : a.cls.reverse with
+  | nil => simp at h; simp [h]
+  | cons x xs =>
+    have hl : a.cls = xs.reverse ++ [x] := by
+      have := congrArg List.reverse h; simpa using this
+    simp [hl]
+
+theorem modAt_length (l : List Frame) (i : Nat) (f : Frame → Frame) : (modAt l i f).length = l.length := by
+  induction l generalizing i with
+  | nil => rfl
+  | cons x rest ih => cases i <;> simp [modAt, ih]
+
+theorem modAt_get_ne (l : List Frame) (i j : Nat) (f : Frame → Frame) (h : j ≠ i) :
+    (modAt l i f)[j]? = l[j]? := by
+  induction l generalizing i j with
+  | nil => rfl
+  | cons x rest ih =>
+    cases i with
+    | zero => cases j with
+      | zero => exact absurd rfl h
+      | succ j => simp [modAt]
+    | succ i => cases j with
+      | zero => simp [modAt]
+      | succ j => simp [modAt]; exact ih i j (by omega)
+
+theorem store_rel (H : Nat) (a : Vars) (v : Nat) (x : Val) (hp : Pre H a) :
+    Rel H a (store a v x) ∧ Pre H (store a v x) := by
+  unfold store
+  cases hs : a.stack.reverse with
+  | nil => exact ⟨Rel.refl H a, hp⟩
+  | cons top below =>
+    have hlen : a.stack.length = below.length + 1 := by
+      have := congrArg List.length hs; simpa using this
+    have hold : ∀ i, i < H → (closureWrite a v x)[i]? = a.heap[i]? := by
+      intro i hi
+      unfold closureWrite
+      cases hc : a.topClosure with
+      | none => rfl
+      | some c =>
+        have := hp.qt c hc
+        exact modAt_get_ne _ _ _ _ (by omega)
+    have hhl : (closureWrite a v x).length = a.heap.length := by
+      unfold closureWrite
+      cases a.topClosure <;> simp [modAt_length]
+    refine ⟨⟨by simp [hlen], rfl, fun _ _ => rfl, hold, by simp only []; rw [hhl]; exact Nat.le_refl _⟩, ?_, ?_, ?_⟩
+    · intro c hc; exact hp.qt c hc
+    · simp only []; rw [hhl]; exact hp.hh
+    · simp [hp.wf, hlen]
+
+
+theorem stc_stack (a : Vars) (c : Option Nat) : (a.setTopClosure c).stack = a.stack := by
+  unfold Vars.setTopClosure; cases a.cls.reverse <;> rfl
+theorem stc_heap (a : Vars) (c : Option Nat) : (a.setTopClosure c).heap = a.heap := by
+  unfold Vars.setTopClosure; cases a.cls.reverse <;> rfl
+theorem stc_clen (a : Vars) (c : Option Nat) : (a.setTopClosure c).cls.length = a.cls.length := by
+  unfold Vars.setTopClosure
+  cases h : a.cls.reverse with
+  | nil => rfl
+  | cons x xs =>
+    have := congrArg List.length h
+    simp at this
+    simp [this]
+theorem stc_low (a : Vars) (c : Option Nat) (i : Nat) (hi : i + 1 < a.cls.length) :
+    (a.setTopClosure c).cls[i]? = a.cls[i]? := by
+  unfold Vars.setTopClosure
+  cases h : a.cls.reverse with
+  | nil => rfl
+  | cons x xs =>
+    have hl : a.cls = xs.reverse ++ [x] := by
+      have := congrArg List.reverse h; simpa using this
+    have hlen : a.cls.length = xs.length + 1 := by rw [hl]; simp
+    simp only [List.reverse_cons]
+    rw [hl, List.getElem?_append_left (by simp; omega), List.getElem?_append_left (by simp; omega)]
+theorem stc_top (a : Vars) (c : Option Nat) (h : a.cls ≠ []) : (a.setTopClosure c).topClosure = c := by
+  unfold Vars.setTopClosure Vars.topClosure
+  cases hr : a.cls.reverse with
+  | nil => simp at hr; exact absurd hr h
+  | cons x xs => simp
+theorem stc_top_nil (a : Vars) (c : Option Nat) (h : a.cls = []) : (a.setTopClosure c).topClosure = none := by
+  unfold Vars.setTopClosure Vars.topClosure
+  simp [h]
+
+theorem stc_rel (H : Nat) (a : Vars) (c : Option Nat) : Rel H a (a.setTopClosure c) :=
+  ⟨by rw [stc_stack], stc_clen a c, fun i hi => stc_low a c i hi, fun i _ => by rw [stc_heap],
+   by rw [stc_heap]; exact Nat.le_refl _⟩
+
+theorem stc_pre (H : Nat) (a : Vars) (c : Option Nat) (hp : Pre H a) (hc : ∀ k, c = some k → H ≤ k) :
+    Pre H (a.setTopClosure c) := by
+  refine ⟨?_, by rw [stc_heap]; exact hp.hh, by rw [stc_clen, stc_stack]; exact hp.wf⟩
+  intro k hk
+  by_cases h : a.cls = []
+  · rw [stc_top_nil a c h] at hk; cases hk
+  · rw [stc_top a c h] at hk; exact hc k hk
+
+theorem push_pre (H : Nat) (a : Vars) (fr : Frame) (hp : Pre H a) : Pre H (a.push [fr]) := by
+  refine ⟨?_, hp.hh, by simp [Vars.push, hp.wf]⟩
+  intro c hc; rw [topClosure_push] at hc; cases hc
+
+/-- back from a nested frame: `take` restores the frame count and the includer's own top closure -/
+theorem take_back (H : Nat) (a b : Vars) (fr : Frame) (hp : Pre H a) (hr : Rel H (a.push [fr]) b) :
+    Rel H a (b.take a.length) ∧ Pre H (b.take a.length) := by
+  have hn : a.cls.length = a.stack.length := hp.wf
+  have hbl : b.stack.length = a.stack.length + 1 := by rw [hr.len]; simp [Vars.push]
+  have hbc : b.cls.length = a.cls.length + 1 := by rw [hr.clen]; simp [Vars.push]
+  have hlow : ∀ i, i < a.cls.length → b.cls[i]? = a.cls[i]? := by
+    intro i hi
+    rw [hr.low i (by simp [Vars.push]; omega)]
+    simp only [Vars.push, List.map_cons, List.map_nil]
+    exact List.getElem?_append_left hi
+  have hrel : Rel H a (b.take a.length) := by
+    refine ⟨?_, ?_, ?_, fun i hi => hr.old i hi, hr.grow⟩
+    · simp [Vars.take, Vars.length]; omega
+    · simp [Vars.take, Vars.length]; omega
+    · intro i hi
+      simp only [Vars.take, Vars.length]
+      rw [List.getElem?_take_of_lt (by omega)]
+      exact hlow i (by omega)
+  refine ⟨hrel, ?_, Nat.le_trans hp.hh hr.grow, by simp [Vars.take, Vars.length]; omega⟩
+  intro c hc
+  rw [topClosure_eq] at hc
+  apply hp.qt c
+  rw [topClosure_eq]
+  by_cases h0 : a.cls.length = 0
+  · have : (b.take a.length).cls.length = 0 := by
+      show (b.cls.take a.stack.length).length = 0
+      rw [List.length_take]; omega
+    rw [this] at hc
+    have : (b.take a.length).cls = [] := List.eq_nil_of_length_eq_zero this
+    rw [this] at hc; simp at hc
+  · have hcl : (b.take a.length).cls.length = a.cls.length := by simp [Vars.take, Vars.length]; omega
+    rw [hcl] at hc
+    simp only [Vars.take, Vars.length] at hc
+    rw [List.getElem?_take_of_lt (by omega), hlow _ (by omega)] at hc
+    exact hc
+
+
+theorem openClosure_rel (H : Nat) (a : Vars) (hp : Pre H a) :
+    Rel H a a.openClosure ∧ Pre H a.openClosure := by
+  unfold Vars.openClosure
+  cases hc : a.topClosure with
+  | some c => exact ⟨Rel.refl H a, hp⟩
+  | none =>
+    simp only []
+    have hs := stc_rel H a (some a.heap.length)
+    have hq := stc_pre H a (some a.heap.length) hp (by intro k hk; cases hk; exact hp.hh)
+    refine ⟨⟨hs.len, hs.clen, hs.low, ?_, ?_⟩, ⟨?_, ?_, hq.wf⟩⟩
+    · intro i hi
+      show (a.heap ++ [[]])[i]? = a.heap[i]?
+      exact List.getElem?_append_left (Nat.lt_of_lt_of_le hi hp.hh)
+    · show a.heap.length ≤ (a.heap ++ [[]]).length
+      simp
+    · intro c hc'
+      have : ({ (a.setTopClosure (some a.heap.length)) with heap := a.heap ++ [[]] } : Vars).topClosure
+          = (a.setTopClosure (some a.heap.length)).topClosure := rfl
+      rw [this] at hc'
+      exact hq.qt c hc'
+    · show H ≤ (a.heap ++ [[]]).length
+      simp; exact Nat.le_succ_of_le hp.hh
+
+theorem heapmod_rel (H : Nat) (a : Vars) (c : Nat) (f : Frame → Frame) (hp : Pre H a) (hc : H ≤ c) :
+    Rel H a { a with heap := modAt a.heap c f } ∧ Pre H { a with heap := modAt a.heap c f } := by
+  refine ⟨⟨rfl, rfl, fun _ _ => rfl, ?_, ?_⟩, ⟨hp.qt, ?_, hp.wf⟩⟩
+  · intro i hi; exact modAt_get_ne _ _ _ _ (by omega)
+  · show a.heap.length ≤ (modAt a.heap c f).length
+    rw [modAt_length]; exact Nat.le_refl _
+  · show H ≤ (modAt a.heap c f).length
+    rw [modAt_length]; exact hp.hh
+
+theorem enclose_rel (H : Nat) (ctx : Frame) (a : Vars) (w : Nat) (hp : Pre H a) :
+    Rel H a (enclose ctx a w) ∧ Pre H (enclose ctx a w) := by
+  obtain ⟨h1, h2⟩ := openClosure_rel H a hp
+  unfold enclose
+  simp only []
+  cases hc : a.openClosure.topClosure with
+  | none => exact ⟨h1, h2⟩
+  | some c =>
+    simp only []
+    split
+    · exact ⟨h1, h2⟩
+    · obtain ⟨h3, h4⟩ := heapmod_rel H a.openClosure c
+        (fun cl => (w, (load ctx a.openClosure w).getD .undef) :: cl) h2 (h2.qt c hc)
+      exact ⟨h1.trans h3, h4⟩
+
+/-- a successful result leaves foreign closures alone -/
+def Keeps (H : Nat) (a : Vars) (r : SRes) : Prop := ∀ o b, r = .ok (o, b) → Rel H a b ∧ Pre H b
+
+theorem keeps_error {H : Nat} {a : Vars} {e : Err} : Keeps H a (.error e) := by
+  intro o b h; cases h
+theorem keeps_ok {H : Nat} {a b : Vars} {o : List String} (h : Rel H a b ∧ Pre H b) :
+    Keeps H a (.ok (o, b)) := by
+  intro o' b' h'; cases h'; exact h
+
+theorem keeps_cont {H : Nat} {a : Vars} (r : SRes) (S : Vars → SRes) :
+    Keeps H a r → (∀ b, Pre H b → Keeps H b (S b)) →
+    Keeps H a (match r with
+      | .error e => .error e
+      | .ok (o, fs') =>
+        match S fs' with
+        | .error e => .error e
+        | .ok (o', fs'') => .ok (o ++ o', fs'')) := by
+  intro hr hS
+  cases r with
+  | error e => exact keeps_error
+  | ok p =>
+    obtain ⟨o, fs'⟩ := p
+    obtain ⟨h1, h2⟩ := hr o fs' rfl
+    have h3 := hS fs' h2
+    simp only []
+    cases hSf : S fs' with
+    | error e => exact keeps_error
+    | ok q =>
+      obtain ⟨o', fs''⟩ := q
+      obtain ⟨h4, h5⟩ := h3 o' fs'' hSf
+      exact keeps_ok ⟨h1.trans h4, h5⟩
+
+theorem emitUndef_keeps (H : Nat) (cfg : Cfg) (q : Bool) (ae : AE) (a : Vars) (hp : Pre H a) :
+    Keeps H a (emitUndef cfg q ae a) := by
+  unfold emitUndef
+  split
+  · exact keeps_error
+  · split <;> exact keeps_ok ⟨Rel.refl H a, hp⟩
+
+theorem varItem_keeps (H : Nat) (ctx : Cfg) (q : Bool) (ae : AE) (it : Item) (a : Vars)
+    (r : Except Err (List String × Vars)) (hp : Pre H a)
+    (h : varItem ctx q ae it a = some r) : Keeps H a r := by
+  unfold varItem at h
+  cases it <;> simp only [] at h <;> try (cases h)
+  case text s => exact keeps_ok ⟨Rel.refl H a, hp⟩
+  case required => exact keeps_ok ⟨Rel.refl H a, hp⟩
+  case setVar v s => exact keeps_ok (store_rel H a _ _ hp)
+  case defMacro v s => exact keeps_ok (store_rel H a _ _ hp)
+  case defMacroV m w =>
+    obtain ⟨h1, h2⟩ := enclose_rel H ctx.rootCtx a w hp
+    split at h
+    · cases h
+      obtain ⟨h3, h4⟩ := store_rel H _ m (Val.macv m w _) h2
+      exact keeps_ok ⟨h1.trans h3, h4⟩
+    · cases h; exact keeps_error
+  all_goals
+    repeat' split at h
+    all_goals
+      cases h
+      first
+        | exact keeps_ok ⟨Rel.refl H a, hp⟩
+        | exact keeps_error
+        | exact emitUndef_keeps H _ _ _ _ hp
+
+
+/-- the callbacks one level down keep foreign closures alone -/
+structure CbKeeps (cbs : SpecCbs) (H : Nat) : Prop where
+  body : ∀ D m k disc outer ae a, Pre H a → Keeps H a (cbs.body D m k disc outer ae a)
+  list : ∀ D cur disc ext outer ae items a, Pre H a → Keeps H a (cbs.list D cur disc ext outer ae items a)
+  chain : ∀ chain disc outer ae layout a, Pre H a → Keeps H a (cbs.chain chain disc outer ae layout a)
+
+theorem keeps_take {H : Nat} {a : Vars} (hp : Pre H a) (fr : Frame) (r : SRes) :
+    Keeps H (a.push [fr]) r →
+    Keeps H a (match r with
+      | .error e => .error e
+      | .ok (o, fs') => .ok (o, fs'.take a.length)) := by
+  intro hr
+  cases r with
+  | error e => exact keeps_error
+  | ok p =>
+    obtain ⟨o, b⟩ := p
+    exact keeps_ok (take_back H a b fr hp (hr o b rfl).1)
+
+theorem specBlock_keeps {cbs : SpecCbs} {H : Nat} (h : CbKeeps cbs H)
+    (D : Nat → List (List Item)) (disc : Bool) (outer : Nat) (ae : AE) (m : Nat) (a : Vars) (hp : Pre H a) :
+    Keeps H a (specBlock cbs D disc outer ae m a) := by
+  unfold specBlock
+  split
+  · exact keeps_error
+  · split
+    · exact keeps_error
+    · split
+      · exact keeps_error
+      · exact keeps_take hp [] _ (h.body D m 0 disc outer ae _ (push_pre H a [] hp))
+
+theorem specSuper_keeps {cbs : SpecCbs} {H : Nat} (h : CbKeeps cbs H)
+    (D : Nat → List (List Item)) (cur : Option (Nat × Nat)) (disc : Bool) (outer : Nat) (ae : AE)
+    (a : Vars) (hp : Pre H a) :
+    Keeps H a (specSuper cbs D cur disc outer ae a) := by
+  unfold specSuper
+  cases cur with
+  | none => exact keeps_error
+  | some p =>
+    obtain ⟨n, k⟩ := p
+    simp only []
+    split
+    · split
+      · exact keeps_error
+      · have hb := h.body D n (k + 1) disc outer ae _ (push_pre H a [] hp)
+        cases hr : cbs.body D n (k + 1) disc outer ae (a.push [[]]) with
+        | error e => exact keeps_error
+        | ok q =>
+          obtain ⟨o, b⟩ := q
+          exact keeps_ok (take_back H a b [] hp (hb o b hr).1)
+    · exact keeps_error
+
+theorem take_self (b : Vars) (n : Nat) (h1 : b.stack.length = n) (h2 : b.cls.length = n) :
+    b.take n = b := by
+  cases b with
+  | mk s c hp =>
+    simp only [Vars.take]
+    simp at h1 h2
+    rw [List.take_of_length_le (by omega), List.take_of_length_le (by omega)]
+
+/-- the heart of the matter: an include hands the included file a frame whose closure is detached,
+    so nothing the file does reaches a closure that existed before (`Rel.old` with
+    `H = a.heap.length`), and the includer's closure is attached again afterwards -/
+theorem specInclude_keeps {cbs : SpecCbs} {H : Nat} (h : CbKeeps cbs H) (env : Env)
+    (disc ign : Bool) (outer : Nat) (names : List Nat) (tried : Bool) (a : Vars) (hp : Pre H a) :
+    Keeps H a (specInclude env cbs disc ign outer names tried a) := by
+  induction names generalizing tried with
+  | nil =>
+    simp only [specInclude]
+    split
+    · exact keeps_error
+    · exact keeps_ok ⟨Rel.refl H a, hp⟩
+  | cons t rest ih =>
+    simp only [specInclude]
+    cases env[t]? with
+    | none => exact ih true
+    | some T =>
+      simp only []
+      cases hL : T.loadErr with
+      | some kk => exact keeps_error
+      | none =>
+      simp only []
+      split
+      · exact keeps_error
+      · have h0 := stc_rel H a none
+        have hp0 := stc_pre H a none hp (by intro k hk; cases hk)
+        have hc := h.chain [t] disc (outer + INCLUDE_COST) T.ae T.layout _ hp0
+        cases hr : cbs.chain [t] disc (outer + INCLUDE_COST) T.ae T.layout (a.setTopClosure none) with
+        | error e => exact keeps_error
+        | ok q =>
+          obtain ⟨o, b⟩ := q
+          obtain ⟨h1, h2⟩ := hc o b hr
+          have hab := h0.trans h1
+          have : b.take a.length = b := take_self b _ hab.len (by rw [hab.clen]; exact hp.wf)
+          simp only [this]
+          exact keeps_ok ⟨hab.trans (stc_rel H b _), stc_pre H b _ h2 hp.qt⟩
+
+theorem retake (H : Nat) (a s : Vars) (x fr : Frame) (hp : Pre H a) (hr : Rel H (a.push [x]) s) :
+    Rel H (a.push [x]) ((s.take a.length).push [fr]) ∧ Pre H ((s.take a.length).push [fr]) := by
+  obtain ⟨h1, h2⟩ := take_back H a s x hp hr
+  refine ⟨⟨?_, ?_, ?_, ?_, ?_⟩, push_pre H _ fr h2⟩
+  · simp [Vars.push]; exact h1.len
+  · simp [Vars.push]; exact h1.clen
+  · intro i hi
+    have hi' : i < a.cls.length := by simp [Vars.push] at hi; omega
+    have hsl : s.cls.length = a.cls.length + 1 := by rw [hr.clen]; simp [Vars.push]
+    rw [← hr.low i hi]
+    show ((s.cls.take a.stack.length) ++ [none])[i]? = s.cls[i]?
+    rw [List.getElem?_append_left (by rw [List.length_take]; have := hp.wf; omega)]
+    exact List.getElem?_take_of_lt (by have := hp.wf; omega)
+  · intro i hi; exact hr.old i hi
+  · exact hr.grow
+
+theorem specLoop_keeps {H : Nat} (run : Vars → SRes) (v : Nat) (vals : List String) (a : Vars)
+    (hp : Pre H a) (hrun : ∀ b, Pre H b → Keeps H b (run b)) :
+    ∀ o s, specLoop run v vals a.length (a.push [[]]) = .ok (o, s) → Rel H (a.push [[]]) s := by
+  unfold specLoop
+  have key : ∀ (acc : SRes), (∀ o s, acc = .ok (o, s) → Rel H (a.push [[]]) s) →
+      ∀ o s, (vals.foldl (fun (acc : SRes) val =>
+        match acc with
+        | .error e => .error e
+        | .ok (o, s) =>
+          match run ((s.take a.length).push [[(v, Val.str val)]]) with
+          | .error e => .error e
+          | .ok (o', s') => .ok (o ++ o', s')) acc) = .ok (o, s) → Rel H (a.push [[]]) s := by
+    induction vals with
+    | nil => intro acc h; exact h
+    | cons val rest ih =>
+      intro acc hacc
+      simp only [List.foldl_cons]
+      apply ih
+      cases acc with
+      | error e => intro o s h; cases h
+      | ok p =>
+        obtain ⟨o, s⟩ := p
+        obtain ⟨h1, h2⟩ := retake H a s [] [(v, Val.str val)] hp (hacc o s rfl)
+        have hr := hrun _ h2
+        simp only []
+        cases hrr : run ((s.take a.length).push [[(v, Val.str val)]]) with
+        | error e => intro o s h; cases h
+        | ok q =>
+          obtain ⟨o', s'⟩ := q
+          intro o'' s'' h; cases h
+          exact h1.trans (hr o' s' hrr).1
+  exact key _ (by intro o s h; cases h; exact Rel.refl H _)
+
+
+theorem specItems_keeps (env : Env) (ctx : Cfg) {cbs : SpecCbs} {H : Nat} (h : CbKeeps cbs H)
+    (D : Nat → List (List Item)) (cur : Option (Nat × Nat)) (disc ext : Bool) (outer : Nat) (ae : AE)
+    (items : List Item) (a : Vars) (hp : Pre H a) :
+    Keeps H a (specItems env ctx cbs D cur disc ext outer ae items a) := by
+  induction items generalizing a with
+  | nil => exact keeps_ok ⟨Rel.refl H a, hp⟩
+  | cons it rest ih =>
+    have hcont : ∀ (a : Vars) (r : SRes), Keeps H a r →
+        Keeps H a (match r with
+          | .error e => .error e
+          | .ok (o, fs') =>
+            match specItems env ctx cbs D cur disc ext outer ae rest fs' with
+            | .error e => .error e
+            | .ok (o', fs'') => .ok (o ++ o', fs'')) :=
+      fun a r hr => keeps_cont r _ hr (fun b hb => ih b hb)
+    cases it with
+    | callBlock m =>
+      simp only [specItems]
+      split
+      · exact hcont _ _ (keeps_ok ⟨Rel.refl H a, hp⟩)
+      · exact hcont _ _ (specBlock_keeps h D disc outer ae m a hp)
+    | super =>
+      simp only [specItems]
+      exact hcont _ _ (specSuper_keeps h D cur disc outer ae a hp)
+    | setSuper v =>
+      simp only [specItems]
+      have hs := specSuper_keeps h D cur false outer ae a hp
+      cases hr : specSuper cbs D cur false outer ae a with
+      | error e => exact keeps_error
+      | ok q =>
+        obtain ⟨o, b⟩ := q
+        obtain ⟨h1, h2⟩ := hs o b hr
+        obtain ⟨h3, h4⟩ := store_rel H b v (captured ae o) h2
+        exact hcont _ _ (keeps_ok ⟨h1.trans h3, h4⟩)
+    | setSelf v m =>
+      simp only [specItems]
+      split
+      · exact hcont _ _ (keeps_ok (store_rel H a _ _ hp))
+      · have hs := specBlock_keeps h D false outer ae m a hp
+        cases hr : specBlock cbs D false outer ae m a with
+        | error e => exact keeps_error
+        | ok q =>
+          obtain ⟨o, b⟩ := q
+          obtain ⟨h1, h2⟩ := hs o b hr
+          obtain ⟨h3, h4⟩ := store_rel H b v (captured ae o) h2
+          exact hcont _ _ (keeps_ok ⟨h1.trans h3, h4⟩)
+    | «extends» exec t =>
+      simp only [specItems]
+      split
+      · exact hcont _ _ (keeps_ok ⟨Rel.refl H a, hp⟩)
+      · split <;> exact keeps_error
+    | incl names ign =>
+      simp only [specItems]
+      exact hcont _ _ (specInclude_keeps h env disc ign outer names false a hp)
+    | importAs t v =>
+      simp only [specItems]
+      split
+      · exact keeps_error
+      · have hi := specInclude_keeps h env false false outer [t] false _ (push_pre H a [] hp)
+        cases hr : specInclude env cbs false false outer [t] false (a.push [[]]) with
+        | error e => exact keeps_error
+        | ok q =>
+          obtain ⟨o, b⟩ := q
+          obtain ⟨h1, h2⟩ := take_back H a b [] hp (hi o b hr).1
+          obtain ⟨h3, h4⟩ := store_rel H (b.take a.length) v (.module (dedupKeys (topFrame b))) h2
+          exact hcont _ _ (keeps_ok ⟨h1.trans h3, h4⟩)
+    | fromImport t name alias =>
+      simp only [specItems]
+      split
+      · exact keeps_error
+      · have hi := specInclude_keeps h env true false outer [t] false _ (push_pre H a [] hp)
+        cases hr : specInclude env cbs true false outer [t] false (a.push [[]]) with
+        | error e => exact keeps_error
+        | ok q =>
+          obtain ⟨o, b⟩ := q
+          obtain ⟨h1, h2⟩ := take_back H a b [] hp (hi o b hr).1
+          obtain ⟨h3, h4⟩ := store_rel H (b.take a.length) alias
+            ((lookupVal name (topFrame b)).getD .undef) h2
+          exact hcont _ _ (keeps_ok ⟨h1.trans h3, h4⟩)
+    | loop v vals body =>
+      simp only [specItems]
+      split
+      · exact keeps_error
+      · split
+        · exact keeps_error
+        · have hl := specLoop_keeps (H := H) (cbs.list D cur disc ext outer ae body) v vals a hp
+            (fun b hb => h.list D cur disc ext outer ae body b hb)
+          cases hr : specLoop (cbs.list D cur disc ext outer ae body) v vals a.length (a.push [[]]) with
+          | error e => exact keeps_error
+          | ok q =>
+            obtain ⟨o, s⟩ := q
+            exact hcont _ _ (keeps_ok (take_back H a s [] hp (hl o s hr)))
+    | inMacro m arg val body =>
+      simp only [specItems]
+      split
+      · exact keeps_error
+      · split
+        · exact keeps_error
+        · split
+          · exact keeps_error
+          · exact hcont _ _ (keeps_ok (store_rel H a _ _ hp))
+    | badTarget => simp only [specItems]; exact keeps_error
+    | autoesc m body =>
+      simp only [specItems]
+      split
+      · exact keeps_error
+      · exact hcont _ _ (h.list D cur disc ext outer m body a hp)
+    | text s =>
+      simp only [specItems]
+      cases hv : varItem ctx disc ae _ a with
+      | none => exact keeps_error
+      | some r =>
+        have hf := varItem_keeps H ctx disc ae _ a r hp hv
+        cases r with
+        | error e => exact keeps_error
+        | ok q => obtain ⟨o, b⟩ := q; exact hcont _ _ hf
+    | emitVar v =>
+      simp only [specItems]
+      cases hv : varItem ctx disc ae _ a with
+      | none => exact keeps_error
+      | some r =>
+        have hf := varItem_keeps H ctx disc ae _ a r hp hv
+        cases r with
+        | error e => exact keeps_error
+        | ok q => obtain ⟨o, b⟩ := q; exact hcont _ _ hf
+    | setVar v s =>
+      simp only [specItems]
+      cases hv : varItem ctx disc ae _ a with
+      | none => exact keeps_error
+      | some r =>
+        have hf := varItem_keeps H ctx disc ae _ a r hp hv
+        cases r with
+        | error e => exact keeps_error
+        | ok q => obtain ⟨o, b⟩ := q; exact hcont _ _ hf
+    | defMacro v s =>
+      simp only [specItems]
+      cases hv : varItem ctx disc ae _ a with
+      | none => exact keeps_error
+      | some r =>
+        have hf := varItem_keeps H ctx disc ae _ a r hp hv
+        cases r with
+        | error e => exact keeps_error
+        | ok q => obtain ⟨o, b⟩ := q; exact hcont _ _ hf
+    | defMacroV m' w' =>
+      simp only [specItems]
+      cases hv : varItem ctx disc ae _ a with
+      | none => exact keeps_error
+      | some r =>
+        have hf := varItem_keeps H ctx disc ae _ a r hp hv
+        cases r with
+        | error e => exact keeps_error
+        | ok q => obtain ⟨o, b⟩ := q; exact hcont _ _ hf
+    | emitAttr v x =>
+      simp only [specItems]
+      cases hv : varItem ctx disc ae _ a with
+      | none => exact keeps_error
+      | some r =>
+        have hf := varItem_keeps H ctx disc ae _ a r hp hv
+        cases r with
+        | error e => exact keeps_error
+        | ok q => obtain ⟨o, b⟩ := q; exact hcont _ _ hf
+    | emitKeys v =>
+      simp only [specItems]
+      cases hv : varItem ctx disc ae _ a with
+      | none => exact keeps_error
+      | some r =>
+        have hf := varItem_keeps H ctx disc ae _ a r hp hv
+        cases r with
+        | error e => exact keeps_error
+        | ok q => obtain ⟨o, b⟩ := q; exact hcont _ _ hf
+    | callVar v =>
+      simp only [specItems]
+      cases hv : varItem ctx disc ae _ a with
+      | none => exact keeps_error
+      | some r =>
+        have hf := varItem_keeps H ctx disc ae _ a r hp hv
+        cases r with
+        | error e => exact keeps_error
+        | ok q => obtain ⟨o, b⟩ := q; exact hcont _ _ hf
+    | required =>
+      simp only [specItems]
+      cases hv : varItem ctx disc ae _ a with
+      | none => exact keeps_error
+      | some r =>
+        have hf := varItem_keeps H ctx disc ae _ a r hp hv
+        cases r with
+        | error e => exact keeps_error
+        | ok q => obtain ⟨o, b⟩ := q; exact hcont _ _ hf
+
+theorem specChain_keeps (env : Env) (ctx : Cfg) {cbs : SpecCbs} {H : Nat} (h : CbKeeps cbs H)
+    (chain : List Nat) (disc : Bool) (outer : Nat) (ae : AE) (layout : List Item) (a : Vars)
+    (hp : Pre H a) : Keeps H a (specChain env ctx cbs chain disc outer ae layout a) := by
+  unfold specChain
+  simp only []
+  split
+  · exact specItems_keeps env ctx h _ none disc false outer ae layout a hp
+  · rename_i pre t post _
+    have h1 := specItems_keeps env ctx h (defs env chain) none disc false outer ae pre a hp
+    cases hr1 : specItems env ctx cbs (defs env chain) none disc false outer ae pre a with
+    | error e => exact keeps_error
+    | ok q =>
+      obtain ⟨o, b⟩ := q
+      obtain ⟨r1, p1⟩ := h1 o b hr1
+      simp only []
+      split
+      · exact keeps_error
+      · split
+        · exact keeps_error
+        · split
+          · exact keeps_error
+          · have h2 := specItems_keeps env ctx h (defs env (chain ++ [t])) none true true outer ae post b p1
+            cases hr2 : specItems env ctx cbs (defs env (chain ++ [t])) none true true outer ae post b with
+            | error e => exact keeps_error
+            | ok q2 =>
+              obtain ⟨o2, b2⟩ := q2
+              obtain ⟨r2, p2⟩ := h2 o2 b2 hr2
+              rename_i T _ _ _
+              have h3 := h.chain (chain ++ [t]) disc outer ae T.layout b2 p2
+              simp only []
+              cases hr3 : cbs.chain (chain ++ [t]) disc outer ae T.layout b2 with
+              | error e => exact keeps_error
+              | ok q3 =>
+                obtain ⟨o3, b3⟩ := q3
+                obtain ⟨r3, p3⟩ := h3 o3 b3 hr3
+                exact keeps_ok ⟨(r1.trans r2).trans r3, p3⟩
+
+theorem keeps_all (env : Env) (ctx : Cfg) (H : Nat) : ∀ f, CbKeeps (specAll env ctx f) H := by
+  intro f
+  induction f with
+  | zero => exact ⟨fun _ _ _ _ _ _ _ _ => keeps_error, fun _ _ _ _ _ _ _ _ _ => keeps_error,
+                  fun _ _ _ _ _ _ _ => keeps_error⟩
+  | succ f ih =>
+    refine ⟨?_, ?_, ?_⟩
+    · intro D m k disc outer ae a hp
+      simp only [specAll]
+      cases (D m)[k]? with
+      | none => exact keeps_error
+      | some b => exact specItems_keeps env ctx ih D _ disc false outer ae b a hp
+    · intro D cur disc ext outer ae items a hp
+      exact specItems_keeps env ctx ih D cur disc ext outer ae items a hp
+    · intro chain disc outer ae layout a hp
+      exact specChain_keeps env ctx ih chain disc outer ae layout a hp
+
+
+theorem specInclude_apart (env : Env) (ctx : Cfg) (f : Nat) (disc ign : Bool) (outer : Nat)
+    (names : List Nat) (tried : Bool) (a b : Vars) (o : List String)
+    (hwf : a.cls.length = a.stack.length)
+    (h : specInclude env (specAll env ctx f) disc ign outer names tried a = .ok (o, b)) :
+    (∀ i, i < a.heap.length → b.heap[i]? = a.heap[i]?) ∧ b.topClosure = a.topClosure ∧
+      b.length = a.length ∧ b.cls.length = a.cls.length ∧ a.heap.length ≤ b.heap.length := by
+  induction names generalizing tried with
+  | nil =>
+    simp only [specInclude] at h
+    split at h
+    · cases h
+    · cases h; exact ⟨fun _ _ => rfl, rfl, rfl, rfl, Nat.le_refl _⟩
+  | cons t rest ih =>
+    simp only [specInclude] at h
+    cases hT : env[t]? with
+    | none => rw [hT] at h; exact ih true h
+    | some T =>
+      rw [hT] at h
+      simp only [] at h
+      cases hL : T.loadErr with
+      | some kk => rw [hL] at h; cases h
+      | none =>
+      rw [hL] at h
+      simp only [] at h
+      split at h
+      · cases h
+      · have hp0 : Pre a.heap.length (a.setTopClosure none) := by
+          refine ⟨?_, ?_, ?_⟩
+          · intro k hk
+            by_cases hc : a.cls = []
+            · rw [stc_top_nil a none hc] at hk; cases hk
+            · rw [stc_top a none hc] at hk; cases hk
+          · rw [stc_heap]; exact Nat.le_refl _
+          · rw [stc_clen, stc_stack]; exact hwf
+        have hc := (keeps_all env ctx a.heap.length f).chain [t] disc (outer + INCLUDE_COST) T.ae T.layout _ hp0
+        cases hr : (specAll env ctx f).chain [t] disc (outer + INCLUDE_COST) T.ae T.layout (a.setTopClosure none) with
+        | error e => rw [hr] at h; cases h
+        | ok q =>
+          obtain ⟨o', b'⟩ := q
+          rw [hr] at h
+          simp only [] at h
+          obtain ⟨h1, _⟩ := hc o' b' hr
+          have hab := (stc_rel a.heap.length a none).trans h1
+          have hts : b'.take a.length = b' := take_self b' _ hab.len (by rw [hab.clen]; exact hwf)
+          rw [hts] at h
+          cases h
+          refine ⟨?_, ?_, ?_, ?_, ?_⟩
+          · intro i hi; rw [stc_heap]; exact hab.old i hi
+          · by_cases hc : a.cls = []
+            · have hb : b'.cls = [] := List.eq_nil_of_length_eq_zero (by rw [hab.clen, hc]; rfl)
+              rw [stc_top_nil _ _ hb]
+              simp [Vars.topClosure, hc]
+            · have hb : b'.cls ≠ [] := by
+                intro hb
+                have := hab.clen; rw [hb] at this
+                exact hc (List.eq_nil_of_length_eq_zero this.symm)
+              exact stc_top _ _ hb
+          · show (b'.setTopClosure a.topClosure).stack.length = a.stack.length
+            rw [stc_stack]; exact hab.len
+          · rw [stc_clen]; exact hab.clen
+          · rw [stc_heap]; exact hab.grow
+
+/-- a `store` by the frame on top writes to the frame's own closure only -/
+theorem store_heap_other (a : Vars) (v : Nat) (x : Val) (i : Nat)
+    (hi : ∀ c, a.topClosure = some c → i ≠ c) : (store a v x).heap[i]? = a.heap[i]? := by
+  unfold store
+  cases a.stack.reverse with
+  | nil => rfl
+  | cons top below =>
+    show (closureWrite a v x)[i]? = a.heap[i]?
+    unfold closureWrite
+    cases hc : a.topClosure with
+    | none => rfl
+    | some c => exact modAt_get_ne _ _ _ _ (hi c hc)
+
+/-- … and so does `Enclose` -/
+theorem enclose_heap_other (ctx : Frame) (a : Vars) (w : Nat) (i : Nat) (hlt : i < a.heap.length)
+    (hi : ∀ c, a.topClosure = some c → i ≠ c) : (enclose ctx a w).heap[i]? = a.heap[i]? := by
+  have hopen : a.openClosure.heap[i]? = a.heap[i]? ∧ ∀ c, a.openClosure.topClosure = some c → i ≠ c := by
+    unfold Vars.openClosure
+    cases hc : a.topClosure with
+    | some c => exact ⟨rfl, fun c' hc' => hi c' (hc.symm ▸ hc')⟩
+    | none =>
+      simp only []
+      refine ⟨List.getElem?_append_left hlt, ?_⟩
+      intro c hc'
+      have : ({ (a.setTopClosure (some a.heap.length)) with heap := a.heap ++ [[]] } : Vars).topClosure
+          = (a.setTopClosure (some a.heap.length)).topClosure := rfl
+      rw [this] at hc'
+      by_cases he : a.cls = []
+      · rw [stc_top_nil _ _ he] at hc'; cases hc'
+      · rw [stc_top _ _ he] at hc'; cases hc'; omega
+  unfold enclose
+  simp only []
+  cases hc : a.openClosure.topClosure with
+  | none => exact hopen.1
+  | some c =>
+    simp only []
+    split
+    · exact hopen.1
+    · show (modAt a.openClosure.heap c _)[i]? = a.heap[i]?
+      rw [modAt_get_ne _ _ _ _ (hopen.2 c hc)]
+      exact hopen.1
 
 end MJ.Blocks
